@@ -16,6 +16,7 @@ import (
 	"runtime/pprof"
 	"strings"
 	"sync"
+	"sync/atomic"
 	"time"
 
 	"github.com/gorilla/websocket"
@@ -55,6 +56,16 @@ func (l *recLogger) add(s string) {
 	if wait != nil {
 		<-wait
 	}
+}
+func (l *recLogger) setHold(key string, ch chan struct{}) {
+	l.mu.Lock()
+	l.hold[key] = ch
+	l.mu.Unlock()
+}
+func (l *recLogger) clearHold(key string) {
+	l.mu.Lock()
+	delete(l.hold, key)
+	l.mu.Unlock()
 }
 func (l *recLogger) SetLevel(string)                   {}
 func (l *recLogger) Info(m string)                     { l.add("I " + m) }
@@ -381,10 +392,13 @@ func (pc *peerConn) close()              { pc.c.Close() }
 
 // ---------- WebSocket peer ----------
 type wsPeer struct {
-	srv   *httptest.Server
-	conns chan *wsPeerConn
-	mu    sync.Mutex
-	all   []*wsPeerConn
+	srv     *httptest.Server
+	conns   chan *wsPeerConn
+	mu      sync.Mutex
+	all     []*wsPeerConn
+	stall   int32         // != 0: accept the TCP connection but never answer the HTTP upgrade
+	stalled int32         // upgrades currently stalled
+	stallCh chan struct{} // closed at shutdown
 }
 type wsPeerConn struct {
 	c     *websocket.Conn
@@ -397,9 +411,17 @@ type wsMsg struct {
 }
 
 func newWSPeer() *wsPeer {
-	p := &wsPeer{conns: make(chan *wsPeerConn, 64)}
+	p := &wsPeer{conns: make(chan *wsPeerConn, 64), stallCh: make(chan struct{})}
 	up := websocket.Upgrader{}
 	p.srv = httptest.NewServer(http.HandlerFunc(func(w http.ResponseWriter, r *http.Request) {
+		if atomic.LoadInt32(&p.stall) != 0 {
+			atomic.AddInt32(&p.stalled, 1)
+			select {
+			case <-p.stallCh:
+			case <-r.Context().Done():
+			}
+			return
+		}
 		c, err := up.Upgrade(w, r, nil)
 		if err != nil {
 			return
@@ -436,6 +458,11 @@ func (p *wsPeer) accept(d time.Duration) *wsPeerConn {
 	}
 }
 func (p *wsPeer) shutdown() {
+	select {
+	case <-p.stallCh:
+	default:
+		close(p.stallCh)
+	}
 	p.mu.Lock()
 	for _, c := range p.all {
 		c.c.Close()
@@ -584,6 +611,23 @@ func libGoroutines() (total int, byFunc map[string]int) {
 		}
 	}
 	return
+}
+
+// libStacks: stacks of the goroutines that are inside the client library, at most n bytes.
+func libStacks(n int) string {
+	var buf bytes.Buffer
+	pprof.Lookup("goroutine").WriteTo(&buf, 2)
+	var out []string
+	for _, g := range strings.Split(buf.String(), "\n\n") {
+		if strings.Contains(g, "openapi-protocol/go/client.") {
+			out = append(out, g)
+		}
+	}
+	s := strings.Join(out, "\n\n")
+	if len(s) > n {
+		s = s[:n]
+	}
+	return s
 }
 
 func goroutineDump() string {
